@@ -79,6 +79,13 @@ CHECKS = {
                     'with add/remove histories and a raising callback; the rule text produced by addMatch and parsed by the bus; '
                     'proxy signal subscriptions.',
             'ref': 'DESIGN.md 2/C12', 'note': NOTE, 'technique': SYM + ' with symbolic strings against reference match semantics'},
+    'C16': {'text': 'Every history of <= 3/4 export / unexport operations over a path pool with parents, children, grandchildren and '
+                    'prefix-sharing siblings is explored (operation selectors are solver variables; the solver exhausts the history '
+                    'space), and after each the real handler is queried at every path: UnknownObject, Introspect child list, '
+                    'GetManagedObjects content, InterfacesAdded/Removed signals, against a reference tree model.',
+            'ref': 'DESIGN.md 2/C16', 'note': NOTE + ' All variables are finite selectors: the verdict is exhaustive within the bound; '
+                    'the solver contributes path coverage, not arithmetic.',
+            'technique': SYM + ' (selector-driven exhaustive histories) against a reference tree model'},
 }
 _TODO = 'check not built yet in this revision (planned, see DESIGN.md section 2)'
 NOT_APPLICABLE = {('C%02d' % i): _TODO for i in range(1, 21)}
